@@ -39,6 +39,7 @@ package taint
 //@   property C02
 //@   assumed
 //@   ensures result ==> matched(n)
+//@   modifies nothing
 
 //@ func isValidatorCondition
 //@   property C02
@@ -46,6 +47,7 @@ package taint
 //@   ensures sound: result ==> (sem(v, isPositive) ==> accepted(v))
 //@   ensures nil_false: v == nil ==> !result
 //@   ensures only_conditions: result ==> istype(v, *ssa.Call) || istype(v, *ssa.BinOp) || istype(v, *ssa.UnOp) || istype(v, *ssa.Extract)
+//@   modifies nothing
 
 // ---------------------------------------------------------------------------
 // C13: with the escape analysis on, every instruction carrying the source's marks
@@ -108,3 +110,15 @@ package taint
 //@   loop 1 body closure_out_edges: istype(cur.Node, *dataflow.ClosureNode) && expanded() ==> called(ClosureNode.Out, _)
 //@   loop 1 body synthetic_out_edges: istype(cur.Node, *dataflow.SyntheticNode) && expanded() ==> called(SyntheticNode.Out, _)
 //@   loop 1 body filtered_not_reported: called(isFiltered, _, _, _) && retof(isFiltered, _, _, _) ==> !called(addNext, _, _, _, _, _, _, _, _) && !called(addNewPathCandidate, _, _, _)
+
+// ---------------------------------------------------------------------------
+// C13: with the escape analysis on, a node is only enqueued after the escape context
+// of its function has been computed and its instructions checked
+// (manageEscapeContexts), whatever the other stop conditions say; and the traversal
+// of a source starts by computing the escape information of the source's function.
+//@ func Visitor.addNext
+//@   property C13
+//@   option havoc:manageEscapeContexts
+//@   requires v != nil && s != nil && cur != nil && s.Config != nil && s.Logger != nil && v.taintSpec != nil
+//@   ensures escape_checked_before_enqueue: old(s.Config.UseEscapeAnalysis) && len(result) == len(que) + 1 ==> called(manageEscapeContexts, _, _, _, _, _)
+//@   ensures enqueued_at_most_one: len(result) == len(que) || len(result) == len(que) + 1
